@@ -57,7 +57,7 @@ theorem c20_reference_journal_partial (slot typeId : Word) (env : JEnv) (tr : Tr
 def longWord (n : Nat) : Word := 2 * (32 * n) + 1
 
 /-- the reference journal on such a word performs `1 + n` storage reads -/
-theorem vr_reads_longWord (n : Nat) (hn : 1 ≤ n) (hs : 32 * n < U64) (tr : Tracer) :
+theorem vr_reads_longWord (n : Nat) (hn : 1 ≤ n) (hs : 32 * n ≤ U64 - 32) (tr : Tracer) :
     (Journal.exec .vr [0, 0]
       { contract := 0, mem := [], memCap := 0, storage := fun _ => longWord n, keccak := fun _ => 0 } tr).2.reads = 1 + n := by
   have hU := U64_eq
@@ -69,7 +69,7 @@ theorem vr_reads_longWord (n : Nat) (hn : 1 ≤ n) (hs : 32 * n < U64) (tr : Tra
   rw [if_pos c]
   have c2 : ¬ (32 * n < 32) := by omega
   simp only [c2, if_false]
-  have hsc : slotCount (32 * n) = n := by unfold slotCount; simp
+  have hsc : slotCount (32 * n) = n := by unfold slotCount; rw [Nat.mod_eq_of_lt (by omega)]; omega
   rw [hsc]
   split <;> rfl
 
@@ -79,7 +79,7 @@ theorem vr_reads_longWord (n : Nat) (hn : 1 ≤ n) (hs : 32 * n < U64) (tr : Tra
 theorem c20_witness_reference_unbounded : ¬ c20_full := by
   have hU := U64_eq
   intro ⟨K, hK, h⟩
-  have hn : 32 * (K * 800 + 1) < U64 := by omega
+  have hn : 32 * (K * 800 + 1) ≤ U64 - 32 := by omega
   have := h .vr [0, 0] { contract := 0, mem := [], memCap := 0, storage := fun _ => longWord (K * 800 + 1), keccak := fun _ => 0 }
     {} rfl ⟨Nat.le_refl _, by simp [maxAlloc], fun n => Nat.le_refl n⟩
   have hr := vr_reads_longWord (K * 800 + 1) (by omega) hn {}
